@@ -237,6 +237,107 @@ static void check_typed(const std::string& f, const std::vector<int>& ix, std::v
         out.push_back({ "typed-argument-text-differs-from-its-stream-representation", ctx + " = " + mc::jstr(got) + " expected " + mc::jstr(want) });
 }
 
+// ---- histories on one formatter object: arguments supplied in both ways, interleaved with reads and copies.
+// The text (or the raise) of every read is a function of the format and of the arguments supplied so far - not of
+// earlier reads.  Events: p/q = `% "x"` / `% "{}"`, a = args("x"), b = args("y","{}"), z = args(), S = str(),
+// C = conversion to std::string, O = streamed, Y = continue on a copy of the formatter, M = continue on a moved formatter
+static const std::string& history_events()
+{
+    static const std::string e = "pqabzSCOYM";
+    return e;
+}
+static void check_history(const std::string& f, const std::string& ev, std::vector<Fail>& out, long& execs)
+{
+    using FM = nitro::detail::formatter<char>;
+    std::unique_ptr<FM> fm(new FM(f));
+    std::vector<std::string> args;
+    size_t k = placeholders(f);
+    std::string done;
+    for (char c : ev)
+    {
+        done += c;
+        bool read = false, threw = false;
+        std::string got, what;
+        try
+        {
+            switch (c)
+            {
+            case 'p':
+                (*fm) % "x";
+                args.push_back("x");
+                break;
+            case 'q':
+                (*fm) % std::string("{}");
+                args.push_back("{}");
+                break;
+            case 'a':
+                fm->args("x");
+                args.push_back("x");
+                break;
+            case 'b':
+                fm->args(std::string("y"), "{}");
+                args.push_back("y");
+                args.push_back("{}");
+                break;
+            case 'z':
+                fm->args();
+                break;
+            case 'Y':
+                fm.reset(new FM(*fm));
+                break;
+            case 'M':
+                fm.reset(new FM(std::move(*fm)));
+                break;
+            case 'S':
+                read = true;
+                got = fm->str();
+                break;
+            case 'C':
+            {
+                read = true;
+                std::string t = *fm;
+                got = t;
+                break;
+            }
+            default:
+            {
+                read = true;
+                std::ostringstream o;
+                o << *fm;
+                got = o.str();
+            }
+            }
+        }
+        catch (std::exception& e)
+        {
+            threw = true;
+            what = e.what();
+        }
+        execs++;
+        std::string ctx = "format(" + mc::jstr(f) + ") after events " + done + " (arguments so far " + mc::jlist(args) + ")";
+        if (!read)
+        {
+            if (threw)
+            {
+                out.push_back({ "supplying-an-argument-raised", ctx + " threw " + what });
+                return;
+            }
+            continue;
+        }
+        if (args.size() != k)
+        {
+            if (!threw)
+                out.push_back({ "wrong-arity-must-raise(history)", ctx + " returned " + mc::jstr(got) });
+        }
+        else if (threw)
+            out.push_back({ "exact-arity-must-not-raise(history)", ctx + " threw " + what });
+        else if (got != ref_format(f, args))
+            out.push_back({ "text-depends-on-the-history", ctx + " = " + mc::jstr(got) + " expected " + mc::jstr(ref_format(f, args)) });
+        if (!out.empty())
+            return;
+    }
+}
+
 // ---- exception messages
 struct NestedRaiser
 {
@@ -346,6 +447,8 @@ int main(int argc, char** argv)
                 ix.push_back(static_cast<int>(v.num));
             check_typed(w.s("format"), ix, f, ex);
         }
+        else if (w.has("format") && w.has("events"))
+            check_history(w.s("format"), w.s("events"), f, ex);
         else if (w.has("format"))
             check_format(w.s("format"), w.strings("args"), f, ex);
         else
@@ -372,6 +475,8 @@ int main(int argc, char** argv)
         L -= 1;
     auto formats = all_formats(L);
     std::vector<std::string> typed_formats = { "{}", "a{}", "{}a", "{}{}", "{} {}", "{{}}", "}{}{", "{}{}{}", "a{}b{}c", "{", "", "{}}", "{{}", "a" };
+    std::vector<std::string> history_formats = { "{}", "{}{}", "a", "{} {}", "{{}}", "{}{}{}" };
+    const int HD = a.thorough() ? (a.asan() ? 5 : 6) : (a.asan() ? 4 : 5);
     mc::Sharded sh;
     sh.id = "C08";
     sh.nworkers = a.jobs;
@@ -463,13 +568,53 @@ int main(int argc, char** argv)
                              });
                 }
             }
+        // (4) histories on one formatter object: every event sequence of length D over 10 events (judged after every read, so
+        // every shorter history is covered as a prefix), sharded by the first two events
+        {
+            const std::string& E = history_events();
+            for (auto& f : history_formats)
+                for (char e0 : E)
+                    for (char e1 : E)
+                    {
+                        long idx = ctx.next;
+                        ctx.each([&] { return mc::Desc{ mc::J().s("format", f).s("events", std::string() + e0 + e1).str(), "history" }; },
+                                 [&](mc::Report& rep) {
+                                     long ex = 0;
+                                     std::string ev(HD, E[0]);
+                                     ev[0] = e0;
+                                     ev[1] = e1;
+                                     std::vector<int> ix(HD, 0);
+                                     for (;;)
+                                     {
+                                         for (int i = 2; i < HD; i++)
+                                             ev[i] = E[ix[i]];
+                                         std::vector<Fail> fl;
+                                         check_history(f, ev, fl, ex);
+                                         rep.transitions.insert(mc::hash("hist" + f + "\x1f" + ev));
+                                         if (ev.find_first_of("SCO") != std::string::npos && ev.find_first_of("pqab") != std::string::npos)
+                                             rep.nontrivial.insert(mc::hash("hist" + f + "\x1f" + ev));
+                                         for (auto& x : fl)
+                                             rep.violation(x.clause, "C08:" + x.clause, mc::J().s("format", f).s("events", ev).str(), x.detail, idx);
+                                         int p = HD - 1;
+                                         while (p >= 2 && ++ix[p] == static_cast<int>(E.size()))
+                                             ix[p--] = 0;
+                                         if (p < 2)
+                                             break;
+                                     }
+                                     rep.count("executions", ex);
+                                     rep.count("histories", 1);
+                                 });
+                    }
+        }
     };
     auto rep = sh.run();
+    rep.counters["bound_history_len"] = HD;
     rep.counters["bound_format_len"] = L;
     rep.counters["formats"] = formats.size();
     rep.notes["rule"] = "every format over {'{','}','a'} of length <= bound x argument count 0..k+1 x tuples over 8 argument texts x 2 ways of "
                         "supplying x 3 ways of reading; typed values and manipulators (tuples of <= 3 over 15) on 14 formats; exception "
-                        "messages alone and after every ordered pair of earlier exceptions; non-trivial = exact-arity tuples for formats with "
+                        "messages alone and after every ordered pair of earlier exceptions; every history of bound_history_len events "
+                        "(supply by % / args(1) / args(2) / args(), read in 3 ways, copy, move) on one formatter for 6 formats, judged at every read; non-trivial = exact-arity tuples for formats with "
                         "placeholders, and exception sequences";
     mc::write_out(a, rep);
     return 0;
